@@ -469,9 +469,26 @@ def guard_pass(ctx, exe, lines, ref, what, extra):
     ctx.cov['guard_page_cases_' + what.replace(' ', '_')] = len(lines)
     return n
 
+def stack_pass(ctx, exe, lines, ref, what, extra, kib=32):
+    """the driver lines again with the library calls made on a thread whose stack has `kib` KiB: the answers must be those of the main thread"""
+    outs = run_lines(exe, ['stack %d' % kib] + list(lines), timeout=1800)[1:]
+    n = 0
+    for l, o, r in zip(lines, outs, ref):
+        ctx.count(('stack', what, l[:4000]))
+        if r.startswith('CRASH'): continue
+        if o.startswith('CRASH') or o.strip() != r.strip():
+            n += 1
+            if n <= 2:
+                ctx.report('small-stack-thread', '%s: called from a thread with a %d KiB stack %s (%s): %s...' % (
+                    what, kib, 'the call dies (its stack frame does not fit: scratch moved onto the stack, deep recursion)' if o.startswith('CRASH') else 'the result differs from the one computed on the main thread', o[:60], l[:80]),
+                    dict(extra, case=l[:60000], stack_kib=kib, impl=o[:300], ordinary=r[:300]))
+    ctx.cov['small_stack_cases_' + what.replace(' ', '_')] = len(lines)
+    return n
+
 def guard_replay(exe, data):
-    o0 = run_lines(exe, [data['case']])[0]; o1 = run_lines(exe, ['guard 1', data['case']])[1]
-    print('case:', data['case'][:200], '\nordinary heap:', o0[:120], '\narrays at page ends:', o1[:120])
+    pre = 'stack %d' % data['stack_kib'] if data.get('stack_kib') else 'guard 1'
+    o0 = run_lines(exe, [data['case']])[0]; o1 = run_lines(exe, [pre, data['case']])[1]
+    print('case:', data['case'][:200], '\nordinary run:', o0[:120], '\nafter "%s":' % pre, o1[:120])
     return 1 if o0.strip() != o1.strip() else 0
 
 def load_findings():
